@@ -262,7 +262,12 @@ EXTRA = {
            'Histories of a log still being written: indexed while its last message lacks 1-3 (.. 25) bytes, opened again when they arrive.',
     'C10': 'Generated logs draw their base P1 time from magnitudes 0 .. 2^24 .. GPS-like .. 2^31 .. 2^32-2 with whole-second bounds '
            'around message times. '
-           'Criteria objects (TimeRange, type list, source list) built once and used for several logs, via the constructor and via filter_in_place().',
+           'Criteria objects (TimeRange, type list, source list) built once and used for several logs, via the constructor and via filter_in_place(). '
+           'The filter_in_place() route has its own literal model (Reader.constructThenFilterTime = the cursor model\'s filterTime step on the '
+           'type-filtered index; C10_filter_in_place_route_no_types_spec: without a type filter it meets the specification). PARTIAL for '
+           'that route with a type filter: open finding C10/filter-in-place-time-range-on-type-filtered-reader (untimed messages placed '
+           'among the selected types only; Lean witnesses C10_filter_in_place_after_types_open / _after_untimed_types_open, directed '
+           'corpus cases run first on every run).',
     'C11': 'Every filter operation also in its replacing form (clear_existing=True = clear-then-filter); histories applying one '
            'type set to different sub-indexes of pattern logs that share first entry, last entry and size. '
            'Stepped index slices index[i:j:k] (Op.filterStride in model, specification and simulation proof); C11_forward_only: between rewinds / seeks the position never moves back, so no message is returned twice.',
